@@ -352,8 +352,13 @@ func (w *objectWalk) processCommitTrees(lc *object.Commit) error {
 		return fmt.Errorf("getting tree for %s: %w", lc.Hash, err)
 	}
 
+	// The parents of a shallow-boundary commit are not part of what is being
+	// sent (nor known to be on the other side), so they cannot serve as the
+	// base of the tree diff: such a commit needs its whole tree.
+	_, boundary := w.shallows[lc.Hash]
+
 	var oldTrees []*object.Tree
-	for i := 0; i < lc.NumParents(); i++ {
+	for i := 0; !boundary && i < lc.NumParents(); i++ {
 		parent, err := lc.Parent(i)
 		if err != nil {
 			if errors.Is(err, plumbing.ErrObjectNotFound) {
